@@ -181,7 +181,7 @@ def install(interp):
     # ---- math
     def m_isnan(x):
         if isinstance(x, SFloat):
-            raise Unsupported("isnan of symbolic float")
+            return x.isnan()
         if is_sym(x):
             return False
         try:
